@@ -84,17 +84,27 @@ impl Decoded {
         macro_rules! dups {
             ($m:expr, $variant:ident) => {{
                 let mut a = $m.clone();
-                a.unprotected.rest.push((coset::Label::Int(1000), Value::Null));
-                a.unprotected.rest.push((coset::Label::Int(1000), Value::Bool(true)));
+                a.unprotected
+                    .rest
+                    .push((coset::Label::Int(1000), Value::Null));
+                a.unprotected
+                    .rest
+                    .push((coset::Label::Int(1000), Value::Bool(true)));
                 out.push(("duplicate-extra-label", Decoded::$variant(a)));
                 let mut b = $m.clone();
                 b.unprotected.alg = Some(coset::Algorithm::Assigned(iana::Algorithm::ES256));
-                b.unprotected.rest.push((coset::Label::Int(1), Value::from(-8)));
+                b.unprotected
+                    .rest
+                    .push((coset::Label::Int(1), Value::from(-8)));
                 out.push(("extra-label-equals-typed-field", Decoded::$variant(b)));
                 let mut c = $m.clone();
                 c.unprotected.rest.push((
                     coset::Label::Int(-1),
-                    Value::Map(vec![(Value::from(1), Value::from(2)), (Value::from(-1), Value::from(1)), (Value::from(1), Value::from(3))]),
+                    Value::Map(vec![
+                        (Value::from(1), Value::from(2)),
+                        (Value::from(-1), Value::from(1)),
+                        (Value::from(1), Value::from(3)),
+                    ]),
                 ));
                 out.push(("duplicate-key-inside-parameter-value", Decoded::$variant(c)));
             }};
@@ -204,7 +214,8 @@ impl Decoded {
     pub fn tagged_via_value(&self, tag: u64) -> Result<Vec<u8>, CoseError> {
         let val = each!(self, v => v.clone().to_cbor_value())?;
         let mut data = Vec::new();
-        coset::cbor::ser::into_writer(&Value::Tag(tag, Box::new(val)), &mut data).map_err(|_| CoseError::EncodeFailed)?;
+        coset::cbor::ser::into_writer(&Value::Tag(tag, Box::new(val)), &mut data)
+            .map_err(|_| CoseError::EncodeFailed)?;
         Ok(data)
     }
 }
@@ -245,7 +256,9 @@ macro_rules! ep {
             ty: $ty,
             form: Form::Untagged,
             decode: |b| <$t>::from_slice(b).map(Decoded::$variant),
-            decode_via_value: |b| <$t>::from_cbor_value(parse_value_strict(b)?).map(Decoded::$variant),
+            decode_via_value: |b| {
+                <$t>::from_cbor_value(parse_value_strict(b)?).map(Decoded::$variant)
+            },
         }
     };
 }
@@ -258,7 +271,9 @@ macro_rules! ept {
             form: Form::Tagged,
             decode: |b| <$t>::from_tagged_slice(b).map(Decoded::$variant),
             decode_via_value: |b| match parse_value_strict(b)? {
-                Value::Tag(t, inner) if t == <$t>::TAG => <$t>::from_cbor_value(*inner).map(Decoded::$variant),
+                Value::Tag(t, inner) if t == <$t>::TAG => {
+                    <$t>::from_cbor_value(*inner).map(Decoded::$variant)
+                }
                 Value::Tag(_, _) => Err(CoseError::UnexpectedItem("tag", "other tag")),
                 _ => Err(CoseError::UnexpectedItem("non-tag", "tag")),
             },
@@ -271,41 +286,152 @@ pub fn endpoints() -> &'static [Endpoint] {
     E.get_or_init(|| {
         vec![
             ep!("Header::from_slice", "Header", coset::Header, Header),
-            ep!("ProtectedHeader::from_slice", "ProtectedHeader", coset::ProtectedHeader, Protected),
-            ep!("CoseSignature::from_slice", "CoseSignature", coset::CoseSignature, Signature),
+            ep!(
+                "ProtectedHeader::from_slice",
+                "ProtectedHeader",
+                coset::ProtectedHeader,
+                Protected
+            ),
+            ep!(
+                "CoseSignature::from_slice",
+                "CoseSignature",
+                coset::CoseSignature,
+                Signature
+            ),
             ep!("CoseSign::from_slice", "CoseSign", coset::CoseSign, Sign),
-            ep!("CoseSign1::from_slice", "CoseSign1", coset::CoseSign1, Sign1),
+            ep!(
+                "CoseSign1::from_slice",
+                "CoseSign1",
+                coset::CoseSign1,
+                Sign1
+            ),
             ep!("CoseMac::from_slice", "CoseMac", coset::CoseMac, Mac),
             ep!("CoseMac0::from_slice", "CoseMac0", coset::CoseMac0, Mac0),
-            ep!("CoseEncrypt::from_slice", "CoseEncrypt", coset::CoseEncrypt, Encrypt),
-            ep!("CoseEncrypt0::from_slice", "CoseEncrypt0", coset::CoseEncrypt0, Encrypt0),
-            ep!("CoseRecipient::from_slice", "CoseRecipient", coset::CoseRecipient, Recipient),
+            ep!(
+                "CoseEncrypt::from_slice",
+                "CoseEncrypt",
+                coset::CoseEncrypt,
+                Encrypt
+            ),
+            ep!(
+                "CoseEncrypt0::from_slice",
+                "CoseEncrypt0",
+                coset::CoseEncrypt0,
+                Encrypt0
+            ),
+            ep!(
+                "CoseRecipient::from_slice",
+                "CoseRecipient",
+                coset::CoseRecipient,
+                Recipient
+            ),
             ep!("CoseKey::from_slice", "CoseKey", coset::CoseKey, Key),
-            ep!("CoseKeySet::from_slice", "CoseKeySet", coset::CoseKeySet, KeySet),
-            ep!("ClaimsSet::from_slice", "ClaimsSet", coset::cwt::ClaimsSet, Claims),
-            ep!("PartyInfo::from_slice", "PartyInfo", coset::PartyInfo, Party),
-            ep!("SuppPubInfo::from_slice", "SuppPubInfo", coset::SuppPubInfo, SuppPub),
-            ep!("CoseKdfContext::from_slice", "CoseKdfContext", coset::CoseKdfContext, Kdf),
+            ep!(
+                "CoseKeySet::from_slice",
+                "CoseKeySet",
+                coset::CoseKeySet,
+                KeySet
+            ),
+            ep!(
+                "ClaimsSet::from_slice",
+                "ClaimsSet",
+                coset::cwt::ClaimsSet,
+                Claims
+            ),
+            ep!(
+                "PartyInfo::from_slice",
+                "PartyInfo",
+                coset::PartyInfo,
+                Party
+            ),
+            ep!(
+                "SuppPubInfo::from_slice",
+                "SuppPubInfo",
+                coset::SuppPubInfo,
+                SuppPub
+            ),
+            ep!(
+                "CoseKdfContext::from_slice",
+                "CoseKdfContext",
+                coset::CoseKdfContext,
+                Kdf
+            ),
             ep!("Label::from_slice", "Label", coset::Label, Label),
             ep!("KeyType::from_slice", "KeyType", coset::KeyType, KeyType),
-            ep!("KeyOperation::from_slice", "KeyOperation", coset::KeyOperation, KeyOp),
-            ep!("RegisteredLabel<HeaderParameter>::from_slice", "CritLabel", CritLabel, Crit),
-            ep!("ContentType::from_slice", "ContentType", coset::ContentType, ContentType),
-            ep!("Algorithm::from_slice", "Algorithm", coset::Algorithm, Algorithm),
-            ep!("ClaimName::from_slice", "ClaimName", coset::cwt::ClaimName, ClaimName),
+            ep!(
+                "KeyOperation::from_slice",
+                "KeyOperation",
+                coset::KeyOperation,
+                KeyOp
+            ),
+            ep!(
+                "RegisteredLabel<HeaderParameter>::from_slice",
+                "CritLabel",
+                CritLabel,
+                Crit
+            ),
+            ep!(
+                "ContentType::from_slice",
+                "ContentType",
+                coset::ContentType,
+                ContentType
+            ),
+            ep!(
+                "Algorithm::from_slice",
+                "Algorithm",
+                coset::Algorithm,
+                Algorithm
+            ),
+            ep!(
+                "ClaimName::from_slice",
+                "ClaimName",
+                coset::cwt::ClaimName,
+                ClaimName
+            ),
             ep!("Value::from_slice", "Value", Value, Value),
-            ept!("CoseSign::from_tagged_slice", "CoseSign", coset::CoseSign, Sign),
-            ept!("CoseSign1::from_tagged_slice", "CoseSign1", coset::CoseSign1, Sign1),
+            ept!(
+                "CoseSign::from_tagged_slice",
+                "CoseSign",
+                coset::CoseSign,
+                Sign
+            ),
+            ept!(
+                "CoseSign1::from_tagged_slice",
+                "CoseSign1",
+                coset::CoseSign1,
+                Sign1
+            ),
             ept!("CoseMac::from_tagged_slice", "CoseMac", coset::CoseMac, Mac),
-            ept!("CoseMac0::from_tagged_slice", "CoseMac0", coset::CoseMac0, Mac0),
-            ept!("CoseEncrypt::from_tagged_slice", "CoseEncrypt", coset::CoseEncrypt, Encrypt),
-            ept!("CoseEncrypt0::from_tagged_slice", "CoseEncrypt0", coset::CoseEncrypt0, Encrypt0),
+            ept!(
+                "CoseMac0::from_tagged_slice",
+                "CoseMac0",
+                coset::CoseMac0,
+                Mac0
+            ),
+            ept!(
+                "CoseEncrypt::from_tagged_slice",
+                "CoseEncrypt",
+                coset::CoseEncrypt,
+                Encrypt
+            ),
+            ept!(
+                "CoseEncrypt0::from_tagged_slice",
+                "CoseEncrypt0",
+                coset::CoseEncrypt0,
+                Encrypt0
+            ),
             Endpoint {
                 name: "ProtectedHeader::from_cbor_bstr",
                 ty: "ProtectedHeader",
                 form: Form::Bstr,
-                decode: |b| coset::ProtectedHeader::from_cbor_bstr(Value::Bytes(b.to_vec())).map(Decoded::Protected),
-                decode_via_value: |b| coset::ProtectedHeader::from_cbor_bstr(Value::Bytes(b.to_vec())).map(Decoded::Protected),
+                decode: |b| {
+                    coset::ProtectedHeader::from_cbor_bstr(Value::Bytes(b.to_vec()))
+                        .map(Decoded::Protected)
+                },
+                decode_via_value: |b| {
+                    coset::ProtectedHeader::from_cbor_bstr(Value::Bytes(b.to_vec()))
+                        .map(Decoded::Protected)
+                },
             },
         ]
     })
@@ -317,11 +443,15 @@ pub fn endpoint(name: &str) -> Option<&'static Endpoint> {
 
 /// The untagged endpoint of a type family.
 pub fn untagged_of(ty: &str) -> Option<&'static Endpoint> {
-    endpoints().iter().find(|e| e.ty == ty && e.form == Form::Untagged)
+    endpoints()
+        .iter()
+        .find(|e| e.ty == ty && e.form == Form::Untagged)
 }
 
 pub fn tagged_of(ty: &str) -> Option<&'static Endpoint> {
-    endpoints().iter().find(|e| e.ty == ty && e.form == Form::Tagged)
+    endpoints()
+        .iter()
+        .find(|e| e.ty == ty && e.form == Form::Tagged)
 }
 
 /// Independent table of the registered CBOR tags (RFC 8152 / IANA CBOR tags registry).
